@@ -231,12 +231,16 @@ def replay_path(mode: str, max_req: int, reqs, pipes, unixes, beh: list[dict]):
             act, args, s = st["action"], st["args"], st["state"]
             n += 1
             t = args[0]
+            if drift is not None:
+                # the real code left the model earlier: keep following the schedule (best effort, no comparison)
+                if t not in w.sched.done and w.sched.enabled(t):
+                    w.step(t)
+                continue
             lab = w.step(t)
             got_pc, got_b = w.pc_of(lab), w.binding()
             if got_pc != s["pc"][t] or got_b != s["bound"]:
                 drift = {"step": n, "action": f"{act}({t})", "pc": got_pc, "expected_pc": s["pc"][t],
                          "binding": got_b, "expected_binding": s["bound"]}
-                break
         ok = w.finish()
         if not ok and drift is None:
             drift = {"what": "threads deadlocked while finishing"}
